@@ -603,11 +603,78 @@ func (g *genCtx) genStmt(allowIf bool) *Stmt {
 func (g *genCtx) genBody(n int, allowIf bool) []*Stmt {
 	var out []*Stmt
 	for i := 0; i < n*3 && len(out) < n; i++ {
+		if g.rng.Chance(1, 6) {
+			if grp := g.genGroup(); grp != nil {
+				out = append(out, grp...)
+				continue
+			}
+		}
 		if s := g.genStmt(allowIf || g.depth == 0); s != nil {
 			out = append(out, s)
 		}
 	}
 	return out
+}
+
+func (g *genCtx) hasVar(id int) *Ty {
+	for _, v := range g.vars {
+		if v.ID == id {
+			return v.Ty
+		}
+	}
+	return nil
+}
+
+func newR(x int64) *Exp {
+	return &Exp{Kind: "New", CK: "KR", Args: []*Exp{eInt(x), {Kind: "Arr", Ty: tArr(tInt)}, {Kind: "Arr", Ty: tArr(tR)}, eInt(0)}}
+}
+
+// genGroup: the write forms that need more than one statement to be resource-correct
+//
+//	force-assignment          var o: @R? <- nil;  o <-! create R(..);  destroy o
+//	second value transfer     var old: @R <- TARGET <- create R(..);  destroy old      (TARGET: element of a resource array
+//	                          field of self / of a resource parameter)
+//	remove                    remove A from TARGET
+func (g *genCtx) genGroup() []*Stmt {
+	r := g.rng
+	// resource-typed element slots reachable here
+	var slots []*Target
+	var bases []*Target
+	if t := g.hasVar(idSelf); t != nil && t.K == "Obj" {
+		slots = append(slots, tgIndex(tgField(tgVar(idSelf), 2), 0))
+		if g.inInit {
+			bases = append(bases, tgIndex(tgField(tgVar(idSelf), 2), 0))
+		}
+	}
+	if g.hasVar(idPR) != nil {
+		slots = append(slots, tgIndex(tgField(tgVar(idPR), 2), 0))
+		bases = append(bases, tgVar(idPR))
+	}
+	switch r.Intn(3) {
+	case 0:
+		x := g.id()
+		l1, l2, l3 := g.ln(), g.ln(), g.ln()
+		return []*Stmt{
+			{Kind: "Let", Ln: l1, X: x, Ty: tOpt(tR), E: &Exp{Kind: "Nil"}},
+			{Kind: "Assign", Ln: l2, T: tgVar(x), E: newR(int64(r.Intn(9)))},
+			{Kind: "Exp", Ln: l3, E: &Exp{Kind: "Destroy", A: eVar(x)}},
+		}
+	case 1:
+		if len(slots) == 0 {
+			return nil
+		}
+		x := g.id()
+		l1, l2 := g.ln(), g.ln()
+		return []*Stmt{
+			{Kind: "Let2", Ln: l1, X: x, Ty: tR, T: slots[r.Intn(len(slots))], E: newR(int64(r.Intn(9)))},
+			{Kind: "Exp", Ln: l2, E: &Exp{Kind: "Destroy", A: eVar(x)}},
+		}
+	default:
+		if len(bases) == 0 {
+			return nil
+		}
+		return []*Stmt{{Kind: "Remove", Ln: g.ln(), T: bases[r.Intn(len(bases))]}}
+	}
 }
 
 func (g *genCtx) genConds(n int) []Cond {
